@@ -428,6 +428,8 @@ package template
 //@   requires editkeys: forallref(p, haskeym(tmpl.nameSpace.esc.actionNodeEdits, p) || haskeym(tmpl.nameSpace.esc.templateNodeEdits, p) || haskeym(tmpl.nameSpace.esc.textNodeEdits, p) ==> !isnil(p))
 //@   option allocates
 //@   option modifies Template.escapeErr Template.Tree TT_Template.Tree @ANALYSIS
+//@   ensures failurekeeps: !isnil(err) ==> tmpl.nameSpace.esc.actionNodeEdits == old(tmpl.nameSpace.esc.actionNodeEdits) && tmpl.nameSpace.esc.templateNodeEdits == old(tmpl.nameSpace.esc.templateNodeEdits) && tmpl.nameSpace.esc.textNodeEdits == old(tmpl.nameSpace.esc.textNodeEdits) && tmpl.nameSpace.esc.called == old(tmpl.nameSpace.esc.called)
+//@   ensures memokept: tmpl.nameSpace.esc.output == old(tmpl.nameSpace.esc.output) && tmpl.nameSpace.esc.derived == old(tmpl.nameSpace.esc.derived)
 //@   ensures once: isnil(err) ==> forallref(p, !haskeym(tmpl.nameSpace.esc.actionNodeEdits, p) && !haskeym(tmpl.nameSpace.esc.templateNodeEdits, p) && !haskeym(tmpl.nameSpace.esc.textNodeEdits, p))
 //@   ensures failed: !isnil(err) && !isnil(tmpl.nameSpace.set[name]) ==> tmpl.nameSpace.set[name].escapeErr == err && isnil(tmpl.nameSpace.set[name].Tree) && isnil(tmpl.nameSpace.set[name].text.Tree)
 //@   ensures failedval: !isnil(err) ==> err != errEscapeOK
